@@ -440,4 +440,48 @@ example : (shifted (⟨⟨3, 1, 1⟩, [10, 20, 30]⟩ : Actual).toArray3D ⟨-1,
 example : getValueRange (⟨⟨3, 1, 1⟩, [10, -20, 30]⟩ : Actual).toArray3D ⟨0, 0, 0⟩ ⟨2, 1, 1⟩ = (-20, 10) := by
   unfold getValueRange; rw [forEach_eq]; decide
 
+/-! ## backward walks -/
+
+theorem backLoop_eq {C : Type} (rs : C → U64 → C) (d : C) :
+    ∀ n : Nat, n < 2 ^ 64 →
+      backLoop rs d (UInt64.ofNat n) = ((List.range n).map (fun i => rs d (UInt64.ofNat i))).reverse := by
+  intro n
+  induction n with
+  | zero => intro _; unfold backLoop; simp
+  | succ n ih =>
+    intro hn
+    have hne : UInt64.ofNat (n + 1) ≠ 0 := by
+      intro h0
+      have := congrArg UInt64.toNat h0
+      rw [UInt64.toNat_ofNat'] at this
+      simp at this; omega
+    have hsub : UInt64.ofNat (n + 1) - 1 = UInt64.ofNat n := by
+      apply UInt64.toNat_inj.mp
+      have h1 : (1 : U64) ≤ UInt64.ofNat (n + 1) := by
+        rw [UInt64.le_iff_toNat_le, UInt64.toNat_ofNat']; simp; omega
+      rw [UInt64.toNat_sub_of_le _ _ h1, UInt64.toNat_ofNat', UInt64.toNat_ofNat']
+      simp; omega
+    unfold backLoop
+    rw [dif_pos hne, hsub, ih (by omega), List.range_succ, List.map_append, List.reverse_append]
+    simp
+
+/-- backward_is_reverse (3D): walking an index sequence backwards with `--it; *it` visits exactly the coordinates of the
+    range-based for loop, in reverse order — in particular `*it` after `--it` is the element `it` now designates. -/
+theorem backward_is_reverse (d : V3 U64) :
+    backward3 d = (iterate3 d).reverse := by
+  unfold backward3
+  have h := backLoop_eq reshape3 d (total3 d).toNat (total3 d).toNat_lt
+  rw [UInt64.ofNat_toNat] at h
+  rw [h, iterate_eq_reshape_range]
+
+theorem backward_is_reverse_2D (d : V2 U64) :
+    backward2 d = (iterate2 d).reverse := by
+  unfold backward2
+  have h := backLoop_eq reshape2 d (total2 d).toNat (total2 d).toNat_lt
+  rw [UInt64.ofNat_toNat] at h
+  rw [h, iterate_eq_reshape_range_2D]
+
+example : backLoop reshape2 (⟨2, 2⟩ : V2 U64) 4 = [⟨1, 1⟩, ⟨0, 1⟩, ⟨1, 0⟩, ⟨0, 0⟩] := by
+  rw [show (4 : U64) = UInt64.ofNat 4 from rfl, backLoop_eq _ _ 4 (by decide)]; decide
+
 end RkVerif.C17
